@@ -26,8 +26,11 @@ Section Top.
     destruct (exec_ok lvl) as [Hi Hr]. unfold check_handler.
     assert (H : replays (_ <- (match r with Err (XInvalid m) => if internal_msg m then mark_dirty else ret tt | _ => ret tt end) ;;
         c <- cleanup LF (exec geom LF lvl) ;;
-        let r' := match c with Some e => Err e | None => r end in
         t <- get_ts ;;
+        let r' := match c with
+                  | Some e => Err e
+                  | None => match r, skipreq t with Ok _, Some m => Err (XInvalid m) | _, _ => r end
+                  end in
         match r', failed t with
         | Err XFuel, _ => throw XFuel
         | Ok _, Some m | Err (XInvalid _), Some m => throw (XStop m SLate)
@@ -37,9 +40,9 @@ Section Top.
     { apply replays_bind.
       - destruct r as [|[]]; try apply replays_ret. destruct (internal_msg m); [apply replays_mark_dirty|apply replays_ret].
       - intros _. apply replays_bind; [apply replays_cleanup; assumption|intros c].
-        cbv zeta. apply replays_bind; [apply replays_get_ts|intros t].
-        destruct (match c with Some e => Err e | None => r end) as [u|[]]; destruct (failed t);
-          try apply replays_throw; apply replays_ret. }
+        apply replays_bind; [apply replays_get_ts|intros t]. cbv zeta.
+        destruct (match c with Some e => Err e | None => match r, skipreq t with Ok _, Some m => Err (XInvalid m) | _, _ => r end end)
+          as [u|[]]; destruct (failed t); try apply replays_throw; apply replays_ret. }
     destruct r as [u|[]]; try exact H. apply replays_throw.
   Qed.
 
